@@ -13,3 +13,29 @@ package xpush
 //@   guarded_by Mutex: closed sendQ noPeerQ sendExpire sendQLen bestEffort failNoPeers readyQ pipes
 //@   immutable: closeQ cv
 //@
+// ---- generated option contracts (tools/gen_option_contracts.py) ----
+//@ func (*socket).SetOption
+//@   ensures name != protocol.OptionSendDeadline && name != protocol.OptionBestEffort && name != protocol.OptionFailNoPeers && name != protocol.OptionWriteQLen ==> result == protocol.ErrBadOption
+//@   ensures name == protocol.OptionSendDeadline ==> (isnil(result) <==> is_duration(value))
+//@   ensures name == protocol.OptionSendDeadline && !isnil(result) ==> result == protocol.ErrBadValue
+//@   ensures name == protocol.OptionSendDeadline && isnil(result) ==> s.sendExpire == int_of(value)
+//@   ensures name == protocol.OptionBestEffort ==> (isnil(result) <==> is_bool(value))
+//@   ensures name == protocol.OptionBestEffort && !isnil(result) ==> result == protocol.ErrBadValue
+//@   ensures name == protocol.OptionBestEffort && isnil(result) ==> s.bestEffort == bool_of(value)
+//@   ensures name == protocol.OptionFailNoPeers ==> (isnil(result) <==> is_bool(value))
+//@   ensures name == protocol.OptionFailNoPeers && !isnil(result) ==> result == protocol.ErrBadValue
+//@   ensures name == protocol.OptionFailNoPeers && isnil(result) ==> s.failNoPeers == bool_of(value)
+//@   ensures name == protocol.OptionWriteQLen ==> (isnil(result) <==> is_int(value) && 0 <= int_of(value))
+//@   ensures name == protocol.OptionWriteQLen && !isnil(result) ==> result == protocol.ErrBadValue
+//@   ensures name == protocol.OptionWriteQLen && isnil(result) ==> s.sendQLen == int_of(value)
+//@   ensures !isnil(result) ==> unchanged(s.bestEffort, s.failNoPeers, s.sendExpire, s.sendQLen)
+//@
+//@ func (*socket).GetOption
+//@   ensures option != protocol.OptionSendDeadline && option != protocol.OptionBestEffort && option != protocol.OptionFailNoPeers && option != protocol.OptionWriteQLen && option != protocol.OptionRaw ==> result1 == protocol.ErrBadOption && isnil(result0)
+//@   ensures option == protocol.OptionSendDeadline ==> isnil(result1) && result0 == iface(s.sendExpire)
+//@   ensures option == protocol.OptionBestEffort ==> isnil(result1) && result0 == iface(s.bestEffort)
+//@   ensures option == protocol.OptionFailNoPeers ==> isnil(result1) && result0 == iface(s.failNoPeers)
+//@   ensures option == protocol.OptionWriteQLen ==> isnil(result1) && result0 == iface(s.sendQLen)
+//@   ensures option == protocol.OptionRaw ==> isnil(result1) && result0 == iface(true)
+//@
+// ---- end generated option contracts ----
